@@ -421,7 +421,7 @@ func (P *Program) verify(key string, tier string, timeoutS int) *FuncResult {
 	}
 	fn := P.byKey[key]
 	if fn == nil {
-		if P.isInterfaceMethod(key) {
+		if P.isInterfaceMethod(key) || strings.Contains(key, "dyn:") {
 			// specification of an interface method: used at dynamic calls, nothing to verify here
 			res.Trusted = true
 			return res
